@@ -160,6 +160,10 @@ def probes(reg):
     out["parse(kft)"] = call(lambda: sorted(dict(reg.parse_units("kft")._units)))
     out["newu->ua"] = call(lambda: fr(Q(1, "newu").to("ua").magnitude))
     out["stack"] = [c.name for c in reg._active_ctx.contexts]
+    # the registry's own options are not part of what a context may change (an activation lifts the redefinition
+    # policy while it installs its redefinitions and has to put it back, also when it fails half-way)
+    out["option:on_redefinition"] = getattr(reg, "_on_redefinition", None)
+    out["option:modes"] = [getattr(reg, "autoconvert_offset_to_baseunit", None), getattr(reg, "default_as_delta", None), getattr(reg, "case_sensitive", None)]
     return out
 
 
